@@ -1162,9 +1162,9 @@ func TestCheck(t *testing.T) {
 		}
 		c.Note("db_states_coarse", stateNames(coarse))
 		var plans []plan
-		allForms := makeAlpha(batchAlpha, true)              // every symbol in both write forms
-		allDirect := makeAlpha(batchAlpha, false)            // direct form only
-		coreDirect := makeAlpha(batchAlpha[:core4N], false)  // core, direct form only
+		allForms := makeAlpha(batchAlpha, true)               // every symbol in both write forms
+		allDirect := makeAlpha(batchAlpha, false)             // direct form only
+		coreDirect := makeAlpha(batchAlpha[:core4N], false)   // core, direct form only
 		coreForms := makeAlpha(batchAlpha[:coreFormsN], true) // core + DeleteSized in both write forms
 		if !c.Thorough() {
 			menu := formsMenu(coarse)
